@@ -112,6 +112,10 @@ Definition msa_block (ref : str) (e : Z * list str * msa) : list str :=
 Definition msa_section (ref : str) (ms : list (Z * list str * msa)) : list str :=
   [] :: (s_msa_ref ++ ref) :: concat (map (msa_block ref) ms).
 
+(* wl2qlc: for ref in msapairs: the section of that reference column *)
+Definition msa_sections (l : list (str * list (Z * list str * msa))) : list str :=
+  concat (map (fun p => msa_section (fst p) (snd p)) l).
+
 (* ---- reader ---- *)
 Record msa_read := mk_msa_read {
   r_ids : list Z;
@@ -244,11 +248,18 @@ Definition expected_read (m : msa) : msa_read :=
   mk_msa_read (m_ids m) (m_taxa m) (m_alm m) (map degap (m_alm m)) (m_local m) (m_swaps m) (m_cons m).
 
 (* ---- the state Alignments.add_alignments rebuilds from the columns ---- *)
-(* read.qlc.normalize_alignment: pad the rows with '-' to the longest, delete the columns that are all gaps *)
+Fixpoint nodup_nat (l : list nat) : list nat :=
+  match l with [] => [] | x :: r => if existsb (Nat.eqb x) r then nodup_nat r else x :: nodup_nat r end.
+(* read.qlc.normalize_alignment: rows that ALL consist of one cell are taken for unsegmented strings and split at
+   blanks (a blank-free segment stays one cell); the rows are padded with '-' to the longest; the columns that are all
+   gaps are deleted *)
 Definition pad_row (n : nat) (r : list str) : list str := r ++ repeat s_gap (n - length r).
-Definition normalize_alignment (rows : list (list str)) : list (list str) :=
+Definition split_single_cells (rows : list (list str)) : list (list str) :=
+  if forallb (fun r => (length r =? 1)%nat) rows then map (fun r => split_on 32 (hd [] r)) rows else rows.
+Definition normalize_alignment (rows0 : list (list str)) : list (list str) :=
+  let rows := split_single_cells rows0 in
   let n := fold_right Nat.max O (map (@length str) rows) in
-  let padded := map (pad_row n) rows in
+  let padded := if (1 <? length (nodup_nat (map (@length str) rows)))%nat then map (pad_row n) rows else rows in
   let keep := filter (fun j => negb (forallb (fun r => str_eqb (nth j r []) s_gap) padded)) (seq 0 n) in
   map (fun r => map (fun j => nth j r []) keep) padded.
 
